@@ -68,7 +68,7 @@ def _read_trace(path):
     return out
 
 
-def run_pytest(target, cwd, style, options, trace, junit):
+def run_pytest(target, cwd, style, options, trace, junit, ordered=False):
     env = sandbox.clean_env()
     env['VP_TRACE'] = trace
     env.pop('VP_NEVER_SET_VARIABLE', None)
@@ -80,6 +80,7 @@ def run_pytest(target, cwd, style, options, trace, junit):
     args.append(target)
     p = subprocess.run(args, cwd=cwd, env=env, stdout=subprocess.PIPE, stderr=subprocess.STDOUT, text=True, timeout=600)
     res = {}
+    seq = []
     if os.path.exists(junit):
         root = ET.parse(junit).getroot()
         for tc in root.iter('testcase'):
@@ -92,7 +93,10 @@ def run_pytest(target, cwd, style, options, trace, junit):
             else:
                 oc = 'passed'
             res[ident] = oc
+            seq.append(oc)
         os.remove(junit)
+    if ordered:
+        return p.returncode, seq, p.stdout
     return p.returncode, res, p.stdout
 
 
@@ -115,6 +119,8 @@ def run_native(target, cwd, style, options, trace):
 
 
 def check_case(case, ctx):
+    if 'kinds' in case and 'modules' not in case:
+        return check_text_case(case, ctx)
     style = case['style']
     options = tuple(case.get('options', ()))
     mods = case['modules']
@@ -265,6 +271,78 @@ def _checked(case, ctx):
         raise engine.Abort(v, best)
 
 
+# ---------------------------------------------------------------------------
+# text files: the plugin collects .txt / .rst files as well; in google style every tagged block is a doctest of its own
+
+TEXT_KINDS = ['pass', 'fail_out', 'fail_exc', 'bind_pass', 'bind_fail', 'read_x', 'skip_all']
+
+
+def text_block(kind, k):
+    tr = ['>>> import os', ">>> with open(os.environ['VP_TRACE'], 'a') as fh:", "...     _ = fh.write('t{}\\n')".format(k)]
+    if kind == 'pass':
+        return tr + [">>> print('out {}')".format(k), 'out {}'.format(k)], 'passed', True
+    if kind == 'fail_out':
+        return tr + [">>> print('out {}')".format(k), 'something else'], 'failed', True
+    if kind == 'fail_exc':
+        return tr + [">>> raise KeyError('{}')".format(k)], 'failed', True
+    if kind == 'bind_pass':
+        return tr + ['>>> X = {}'.format(k), '>>> print(X)', str(k)], 'passed', True
+    if kind == 'bind_fail':
+        return tr + ['>>> X = {}'.format(k), ">>> raise ValueError('after binding X')"], 'failed', True
+    if kind == 'read_x':
+        # X is only ever bound by *other* blocks: whatever ran before and however it ended, this is a NameError
+        return tr + ['>>> print(X)'], 'failed', True
+    if kind == 'skip_all':
+        return ['>>> # xdoctest: +SKIP', ">>> print('never')", 'wrong'], 'skipped', False
+    raise KeyError(kind)
+
+
+def check_text_case(case, ctx):
+    kinds = case['kinds']
+    lines = ['A text file with examples.', '']
+    exp, exp_trace = [], []
+    for k, kind in enumerate(kinds):
+        body, oc, traced = text_block(kind, k)
+        lines += ['Some prose about block {}.'.format(k), '', 'Example:'] + ['    ' + b for b in body] + ['']
+        exp.append(oc)
+        if traced:
+            exp_trace.append('t{}'.format(k))
+    name = 'notes_{}{}'.format(sandbox.unique_name('t'), case.get('ext', '.txt'))
+    with sandbox.scratch('c15t') as d:
+        path = os.path.join(d, name)
+        with open(path, 'w') as f:
+            f.write('\n'.join(lines) + '\n')
+        trace = os.path.join(d, 'trace.txt')
+        rc, got, out = run_pytest(name, d, 'google', (), trace, os.path.join(d, 'junit.xml'), ordered=True)
+        got_trace = _read_trace(trace)
+    if ctx is not None:
+        ctx.count()
+        ctx.tag('textfile')
+        for kind in set(kinds):
+            ctx.tag('text_kind:' + kind)
+        if 'read_x' in kinds and any(k_.startswith('bind') for k_ in kinds[:max(i for i, k_ in enumerate(kinds) if k_ == 'read_x')]):
+            ctx.nontriv(('text', tuple(kinds)), {'text_file_blocks': kinds})
+    where = 'blocks={}\n{}\n--- pytest\n{}'.format(kinds, '\n'.join(lines), out[-1500:])
+    if len(got) != len(exp):
+        raise Violation('textfile:item_count', 'pytest reports {} items for {} example blocks\n{}'.format(len(got), len(exp), where))
+    if got != exp:
+        i = [a != b for a, b in zip(got, exp)].index(True)
+        raise Violation('textfile:outcome:{}'.format(kinds[i]), 'block {} ({}) is {} expected {}; all: {} expected {}\n{}'.format(
+            i, kinds[i], got[i], exp[i], got, exp, where))
+    if got_trace != exp_trace:
+        raise Violation('textfile:trace', 'blocks that ran: {} expected {}\n{}'.format(got_trace, exp_trace, where))
+    if (rc != 0) != ('failed' in exp):
+        raise Violation('textfile:exit_status', 'pytest exit status {} with outcomes {}\n{}'.format(rc, exp, where))
+
+
+def hyp_textfiles(ctx, n_examples):
+    from hypothesis import strategies as st
+    strat = st.fixed_dictionaries({'kinds': st.lists(st.sampled_from(TEXT_KINDS), min_size=2, max_size=7),
+                                   'ext': st.sampled_from(['.txt', '.rst'])})
+    engine.hyp_run(ctx, strat, lambda case, c: check_text_case(case, c), n_examples, shrink=False)
+    ctx.guard(check_text_case, {'kinds': ['bind_fail', 'read_x', 'bind_pass', 'read_x', 'skip_all', 'pass', 'fail_out'], 'ext': '.txt'})
+
+
 def hyp_packages(ctx, n_examples, max_modules):
     engine.hyp_run(ctx, case_strategy(max_modules), _checked, n_examples, shrink=False)
 
@@ -310,4 +388,5 @@ def jobs(tier):
     out = [('fixed', 'fixed', {})]
     out += [('hyp_packages#%d' % s, 'hyp_packages', dict(n_examples=5 if quick else 60, max_modules=10)) for s in range(10)]
     out += [('hyp_single#%d' % s, 'hyp_packages', dict(n_examples=8 if quick else 90, max_modules=1)) for s in range(5)]
+    out += [('hyp_textfiles#%d' % s, 'hyp_textfiles', dict(n_examples=6 if quick else 80)) for s in range(2)]
     return out
